@@ -381,6 +381,9 @@ def run(ctx):
               bad[0][2].line if bad and bad[0][2] is not None else roots[0].line, config=config,
               sample={'roots': list(VALIDATORS), 'reachable_functions': len(seen)})
         ck.min_instances('functions reachable from the validators', len(seen), 15)
+        # ---- h  what the scan reads of a chunk is hashed before the chunk's verdict
+        from ..rules import dlrules as _dl9
+        _dl9.read_reaches_hash(ck, prog, config, 'C09-h')
         # ---- b, e
         for name in SCANS:
             fn = prog.need_func(name)
